@@ -40,7 +40,7 @@ func (k c15Case) key() string {
 	if k.Deadline {
 		x = "deadline"
 	}
-	return fmt.Sprintf("%s/%s/%s/%s/%s/r%ds%d", k.Proto, k.Kind, k.ReqMode, k.Client, x, k.HRecv, k.HSend)
+	return fmt.Sprintf("%s/%s/%s/%s/%s/r%ds%d/d%d", k.Proto, k.Kind, k.ReqMode, k.Client, x, k.HRecv, k.HSend, k.Bound)
 }
 
 func (k c15Case) tags() []string {
@@ -306,6 +306,21 @@ func c15Cases(thorough bool) []c15Case {
 	}
 	words := c15Words(maxLen)
 	var out []c15Case
+	if thorough {
+		// the cancellation instant combined with one more delay, for short programs
+		for _, p := range AllProtos {
+			for _, dl := range []bool{false, true} {
+				for _, w := range c15Words(2) {
+					for _, hs := range []int{0, 1} {
+						out = append(out, c15Case{Proto: p, Kind: KBidi, ReqMode: memhttp.ReqEager, Client: w, Deadline: dl, HRecv: 0, HSend: hs, Bound: 2})
+					}
+				}
+				for _, kind := range []Kind{KUnary, KClient, KServer} {
+					out = append(out, c15Case{Proto: p, Kind: kind, ReqMode: memhttp.ReqEager, Client: "fixed", Deadline: dl, HRecv: 1, HSend: 1, Bound: 2})
+				}
+			}
+		}
+	}
 	bound := 1
 	for _, p := range AllProtos {
 		for _, dl := range []bool{false, true} {
@@ -452,7 +467,7 @@ func TestC15(t *testing.T) {
 		return
 	}
 	thorough := ev.Thorough()
-	c.Bound("delay_bound", 1)
+	c.Bound("delay_bound", map[bool]string{false: "1", true: "1 for all scenarios, 2 for programs of length <= 2 and the Call* wrappers"}[thorough])
 	c.Bound("max_client_program_length", map[bool]int{false: 3, true: 4}[thorough])
 	c15Sequential(t, c)
 	cases := c15Cases(thorough)
